@@ -281,8 +281,21 @@ pub fn run_sequence(ctx: &mut Ctx, bytes: &[u8]) -> Result<bool, Failure> {
                     "textDocument/semanticTokens/range" => json!({"textDocument": {"uri": uri}, "range": {"start": pos_json(p), "end": pos_json(p2)}}),
                     _ => json!({"textDocument": {"uri": uri}, "position": pos_json(p)}),
                 };
-                let id = lsp.request(method, params);
+                let id = lsp.request(method, params.clone());
                 request_ids.push((id, method.to_string()));
+                if c.chance(24) {
+                    // the same request many more times than the machine has cores, in one write
+                    let burst = 2 * std::thread::available_parallelism().map(|n| n.get()).unwrap_or(8) + 1;
+                    let mut bytes = vec![];
+                    for _ in 0..burst {
+                        let (id, msg) = lsp.request_msg(method, params.clone());
+                        bytes.extend(Lsp::frame(&msg));
+                        request_ids.push((id, method.to_string()));
+                    }
+                    lsp.send_bytes(&bytes);
+                    ctx.class("burst of more concurrent requests than cores");
+                    log.push(format!("  x{} more of the same, written at once", burst));
+                }
                 if invalid_seen {
                     request_after_invalid = true;
                 }
